@@ -160,6 +160,12 @@ def make_load(b, load):
             # a load function that uses the public API on what it receives (without modifying it): copies in the units it likes
             # to compute in, comparisons, a sensor on the loaded element
             k_ = len(log)
+            if load.get('reentrant') == 'inplace-time' and t > 0:
+                # ... and converts the instant it receives IN PLACE (same instant, another unit; units in which the value
+                # stays >= 1e-6, see the D9 note in sim/gen.py)
+                us_ = [u_ for u_ in ('sec', 'ms', 'min', 'hour') if t / SI.FACT['Time'][u_] >= 1e-6]
+                if us_:
+                    time.to(us_[len(b.pt.time) % len(us_)], inplace=True)          # keyed by the instant, so that a rerun does the same
             time.to(('sec', 'ms', 'min')[k_ % 3])
             angular_position.to(('rad', 'deg', 'rot')[k_ % 3])
             angular_speed.to(('rad/s', 'rpm', 'deg/s')[(k_ + 1) % 3]) >= angular_speed
